@@ -30,6 +30,9 @@ structure DSt where
   recSeen : Bool := false
   acked : List Nat := []          -- bids whose call returned
   started : List (Nat × Nat) := []   -- (bid, #entries) of every transaction that entered the pipeline
+  rewriteEvery : Bool := false       -- ManifestRewriteThreshold = 1: every manifest edit is followed by a rewrite
+  parked : Option (Nat × List Step) := none        -- `ptxn`: (line, steps left) of the commit parked before its `sync:wal`
+  queued : List (Nat × List ESz) := []             -- `ptxn`: requests waiting behind the parked commit (one batch)
   deriving Repr
 
 def setCfg (d : DSt) (kv : String) : Option DSt :=
@@ -77,6 +80,9 @@ def setCfg (d : DSt) (kv : String) : Option DSt :=
     | "vlog.writeOrder" => if v == "append,sync" then some d else none
     | "recovery.logPointerOp" => if v == "le" then some d else none
     | "recovery.fidAllocator" => if v == "raise" then some d else none
+    | "db.headPerRequest" => if v == "perRequest" then some d else none
+    | "manifest.rewriteOrder" => if v == "current,remove" then some d else none
+    | "wal.recordBound" => if v == "none" then some d else none
     | "oracle.seedOp" =>
       if v == "ge" then some { d with cfg := { d.cfg with seedGe := true } }
       else if v == "gt" then some { d with cfg := { d.cfg with seedGe := false } }
@@ -113,14 +119,17 @@ structure Walk where
   st : St
   evs : List String := []
   dead : Option String := none
+  rest : List Step := []      -- steps not executed because the walk stopped at `stopAt`
 
 /-- execute steps until the k-th file operation of `path` on this line (kill) or the end -/
-def walk (path : String) (kill : Option (String × Nat × Nat)) (line : Nat) (count0 : Nat) (st : St) (steps : List Step) : Walk :=
+def walk (path : String) (kill : Option (String × Nat × Nat)) (line : Nat) (count0 : Nat) (st : St) (steps : List Step)
+    (stopAt : Option String := none) : Walk :=
   let rec go (w : Walk) (cnt : Nat) : List Step → Walk
     | [] => w
     | s :: r =>
       match s.event w.st with
       | some ev =>
+        if stopAt == some ev then { w with rest := s :: r } else
         let cnt' := cnt + 1
         let hit := match kill with
           | some (p, l, k) => p == path && l == line && k == cnt'
@@ -130,14 +139,26 @@ def walk (path : String) (kill : Option (String × Nat × Nat)) (line : Nat) (co
       | none => go { w with st := exec w.st s } cnt r
   go { st := st } count0 steps
 
+/-- with `ManifestRewriteThreshold = 1` every manifest edit is followed by a rewrite of the manifest
+(`manifest/manager.go:rewriteLocked`: snapshot file written, synced, closed; CURRENT.tmp written,
+synced, renamed over CURRENT; old manifest closed, snapshot reopened, old manifest removed).  In
+this order no prefix of it changes what `Open` sees, so the steps are effect-free. -/
+def rewriteNops : List Step :=
+  ["open:manifest", "write:manifest", "sync:manifest", "close:manifest", "open:current", "write:current",
+   "sync:current", "close:current", "rename:current", "close:manifest", "open:manifest", "remove:manifest"].map Step.nop
+
+def decorate (rw : Bool) : List Step → List Step
+  | [] => []
+  | s :: r => if rw && s == Step.nop "sync:manifest" then s :: (rewriteNops ++ decorate rw r) else s :: decorate rw r
+
 /-- flush every immutable memtable (FIFO), as the flush worker does once the foreground call returned -/
-def flushAll (c : Cfg) (kill : Option (String × Nat × Nat)) (line : Nat) (st : St) : Walk :=
+def flushAll (c : Cfg) (kill : Option (String × Nat × Nat)) (line : Nat) (st : St) (rw : Bool := false) : Walk :=
   let ids := immIds st.segs
   ids.foldl (fun (w : Walk) id =>
     match w.dead with
     | some _ => w
     | none =>
-      let w2 := walk "F" kill line w.evs.length w.st (flushSteps c id)
+      let w2 := walk "F" kill line w.evs.length w.st (decorate rw (flushSteps c id))
       { st := w2.st, evs := w.evs ++ w2.evs, dead := w2.dead }) { st := st }
 
 /-! ### canonical dump of a recovered / reopened store and the specification verdicts -/
@@ -156,16 +177,20 @@ structure Grp where
   dangling : Nat
   total : Option Nat
 
+def insertPair (a : Nat × Nat) : List (Nat × Nat) → List (Nat × Nat)
+  | [] => [a]
+  | x :: r =>
+    if a.1 < x.1 || (a.1 == x.1 && a.2 < x.2) then a :: x :: r
+    else if a == x then x :: r else x :: insertPair a r
+
+/-- one group per (version, writing transaction) -/
 def groups (c : Cfg) (st : St) (started : List (Nat × Nat)) : List Grp :=
   let recs := (written st).filter (fun r => r.key != probeKey)
-  let vers := recs.foldl (fun acc r => insertNat r.ver acc) []
-  vers.map fun v =>
-    let rs := recs.filter (fun r => r.ver == v)
-    let bid := match rs with
-      | r :: _ => r.bid
-      | [] => 0
-    { ver := v, bid := bid, present := (rs.filter (readable c st)).length,
-      dangling := (rs.filter (fun r => !readable c st r)).length, total := totalOf started bid }
+  let ids := recs.foldl (fun acc r => insertPair (r.ver, r.bid) acc) []
+  ids.map fun (v, b) =>
+    let rs := recs.filter (fun r => r.ver == v && r.bid == b)
+    { ver := v, bid := b, present := (rs.filter (readable c st)).length,
+      dangling := (rs.filter (fun r => !readable c st r)).length, total := totalOf started b }
 
 def grpStr (g : Grp) : String :=
   let t := match g.total with
@@ -218,7 +243,7 @@ def reopen (d : DSt) (killed : String) (clean : Bool) : DSt × String :=
   let gs := groups d.cfg st1 d.started
   let out := dumpLine d.prop d.st.sync d.acked d.started gs killed
   -- immutable memtables recovered from the WAL are flushed right after open
-  let w := flushAll d.cfg none d.line st1
+  let w := flushAll d.cfg none d.line st1 d.rewriteEvery
   -- after a crash the next versions may be reused by later transactions: only what survived counts as started
   let started' := d.started.filter (fun (b, _) => gs.any (fun g => g.bid == b))
   -- `walSize` of the memtable that becomes active again = bytes of the records replayed into it
@@ -230,6 +255,50 @@ def reopen (d : DSt) (killed : String) (clean : Bool) : DSt × String :=
             by_ := { d.by_ with walN := 0, memWal := lastWal,
                                 vMap := d.by_.vOff } },
    out ++ "\t" ++ dumpSpec d.prop clean)
+
+/-- the decorated steps of one single-request commit and the byte state after it -/
+def commitPlan (d : DSt) (line : Nat) (es : List ESz) (ver? : Option Nat) : List Step × ByteSt :=
+  let lastIsActive := d.st.lastHead == some d.st.vactive
+  let (decs, delta, by1) := decide_ d.cfg d.by_ lastIsActive es
+  let steps0 := commitSteps d.cfg d.st line decs delta
+  let steps1 := match ver?, steps0 with
+    | some v, a :: r => a :: Step.resume line v :: r
+    | _, l => l
+  (decorate d.rewriteEvery steps1, by1)
+
+def byAfter (d : DSt) (by1 : ByteSt) (evs : List String) : ByteSt :=
+  { by1 with walN := if d.st.sync then 0 else by1.walN,
+             headOff := if evs.contains "write:manifest" then by1.vOff else by1.headOff }
+
+/-- one commit batch of several requests (`db_write.go:commitWorker`): `vlog.write` for all of them,
+then per request `updateHead` / `writeToLSM` (in the configured order), one `wal.Sync`, the acks -/
+def batchWalk (d : DSt) (line : Nat) (cnt0 : Nat) (reqs : List (Nat × List ESz)) : Walk × ByteSt :=
+  let c := d.cfg
+  let ts0 := d.st.nextTs
+  -- decisions request by request (the byte accounting of the value log and of the WAL is sequential)
+  let (plans, byF) := reqs.foldl (fun (acc : List (Nat × List (Ent × Dec) × Bool) × ByteSt) (lr : Nat × List ESz) =>
+      let (decs, delta, b') := decide_ c acc.2 false lr.2
+      (acc.1 ++ [(lr.1, decs, delta)], b')) ([], d.by_)
+  let vlogPart := plans.flatMap (fun (l, decs, _) => Step.accept l (decs.map (·.1)) :: vlogSteps decs)
+  let w0 := walk "C" d.kill line cnt0 d.st vlogPart
+  let idx := List.range plans.length
+  let w1 := (plans.zip idx).foldl (fun (w : Walk) (pi : (Nat × List (Ent × Dec) × Bool) × Nat) =>
+      match w.dead with
+      | some _ => w
+      | none =>
+        let (l, decs, delta) := pi.1
+        let head := headSteps c (decs.any (·.1.big)) w.st.lastHead w.st.vactive delta
+        let lsm := lsmSteps c true decs
+        let steps := decorate d.rewriteEvery (Step.resume l (ts0 + pi.2) :: (if c.headFirst then head ++ lsm else lsm ++ head))
+        let w' := walk "C" d.kill line (cnt0 + w.evs.length) w.st steps
+        { st := w'.st, evs := w.evs ++ w'.evs, dead := w'.dead }) w0
+  let w2 := match w1.dead with
+    | some _ => w1
+    | none =>
+      let tail := (if d.st.sync then [Step.wSync, Step.nop "sync:wal"] else []) ++ [Step.ack]
+      let w' := walk "C" d.kill line (cnt0 + w1.evs.length) w1.st tail
+      { st := w'.st, evs := w1.evs ++ w'.evs, dead := w'.dead }
+  (w2, byF)
 
 def step (d0 : DSt) (toks : List String) : DSt × String :=
   match toks with
@@ -244,6 +313,14 @@ def step (d0 : DSt) (toks : List String) : DSt × String :=
   match toks with
   | ["prop", p] => ({ d with prop := p }, "ok\t*")
   | ["wait", _] => (d, (if isDead then "-" else "ok") ++ "\t*")
+  | ["maint", "rotate"] =>
+    -- the active memtable is sealed (WAL segment switch) and flushed: the new one is empty
+    if !d.opened then (d, "malformed\t*") else
+    if isDead then (d, "-\t*") else
+    if d.closed then (d, "nodb\t*") else
+      let st1 := execAll d.st [Step.wSync, Step.nop "sync:wal", Step.nop "close:wal", Step.mRotate]
+      let wf := flushAll d.cfg none line st1 d.rewriteEvery
+      ({ d with st := wf.st, by_ := { d.by_ with walN := 0, memWal := 0 } }, "done\tdone")
   | ["maint", _] =>
     -- a compaction step moves / rewrites tables; what the database holds does not change
     if !d.opened then (d, "malformed\t*") else
@@ -254,7 +331,8 @@ def step (d0 : DSt) (toks : List String) : DSt × String :=
     let sync := (kv? args "sync").bind natOf? |>.getD 0
     let mt := (kv? args "mt").bind natOf? |>.getD 0
     let vf := (kv? args "vf").bind natOf? |>.getD 0
-    ({ d with opened := true, st := { sync := sync != 0 }, by_ := { mt := mt, vf := vf, vMap := vf } }, "ok\t*")
+    let mr := (kv? args "mr").bind natOf? |>.getD 0
+    ({ d with rewriteEvery := mr == 1, opened := true, st := { sync := sync != 0 }, by_ := { mt := mt, vf := vf, vMap := vf } }, "ok\t*")
   | ["kill", p, l, k] =>
     if d.killSeen || !d.opened then ({ d with killSeen := true }, "malformed\t*") else
     match natOf? l, natOf? k with
@@ -267,22 +345,81 @@ def step (d0 : DSt) (toks : List String) : DSt × String :=
     match ents.mapM parseEnt? with
     | none => (d, "bad-op")
     | some es =>
-      let lastIsActive := d.st.lastHead == some d.st.vactive
-      let (decs, delta, by1) := decide_ d.cfg d.by_ lastIsActive es
-      let steps := commitSteps d.cfg d.st line decs delta
+      let (steps, by1) := commitPlan d line es none
       let w := walk "C" d.kill line 0 d.st steps
-      let headLogged := w.evs.contains "write:manifest"
-      let by2 := { by1 with walN := if d.st.sync then 0 else by1.walN,
-                            headOff := if headLogged then by1.vOff else by1.headOff }
+      let by2 := byAfter d by1 w.evs
       let started := d.started ++ [(line, es.length)]
       match w.dead with
       | some k =>
         ({ d with st := w.st, dead := some k, started := started, by_ := by2 },
          s!"- c=[{joinC w.evs}] f=[]\t*")
       | none =>
-        let wf := flushAll d.cfg d.kill line w.st
+        let wf := flushAll d.cfg d.kill line w.st d.rewriteEvery
         ({ d with st := wf.st, dead := wf.dead, started := started, acked := d.acked ++ [line], by_ := by2 },
          s!"ack c=[{joinC w.evs}] f=[{joinC wf.evs}]\t*")
+  | "vtxn" :: v :: ents =>
+    -- a transaction whose entries carry their own (lower) version (`kv.Entry.Version` through Txn.SetEntry)
+    if !d.opened then (d, "malformed\t*") else
+    if isDead then (d, "- c=[] f=[]\t*") else
+    if d.closed then (d, "nodb c=[] f=[]\t*") else
+    match natOf? v, ents.mapM parseEnt? with
+    | some v, some es =>
+      let (steps, by1) := commitPlan d line es (some v)
+      let w := walk "C" d.kill line 0 d.st steps
+      let by2 := byAfter d by1 w.evs
+      let started := d.started ++ [(line, es.length)]
+      match w.dead with
+      | some k =>
+        ({ d with st := w.st, dead := some k, started := started, by_ := by2 },
+         s!"- c=[{joinC w.evs}] f=[]\t*")
+      | none =>
+        let wf := flushAll d.cfg d.kill line w.st d.rewriteEvery
+        ({ d with st := wf.st, dead := wf.dead, started := started, acked := d.acked ++ [line], by_ := by2 },
+         s!"ack c=[{joinC w.evs}] f=[{joinC wf.evs}]\t*")
+    | _, _ => (d, "bad-op")
+  | "ptxn" :: ents =>
+    -- asynchronous commits: the first one is parked right before its `sync:wal` (the commit worker
+    -- is held there), the following ones queue up behind it and form ONE commit batch at `join`
+    if !d.opened then (d, "malformed\t*") else
+    if isDead then (d, "- c=[]\t*") else
+    if d.closed then (d, "nodb c=[]\t*") else
+    match ents.mapM parseEnt? with
+    | none => (d, "bad-op")
+    | some es =>
+      let started := d.started ++ [(line, es.length)]
+      match d.parked with
+      | some _ => ({ d with queued := d.queued ++ [(line, es)], started := started }, "started c=[]\t*")
+      | none =>
+        let (steps, by1) := commitPlan d line es none
+        let w := walk "C" d.kill line 0 d.st steps (some "sync:wal")
+        let by2 := byAfter d by1 w.evs
+        match w.dead with
+        | some k => ({ d with st := w.st, dead := some k, started := started, by_ := by2 }, s!"- c=[{joinC w.evs}]\t*")
+        | none => ({ d with st := w.st, started := started, by_ := by2, parked := some (line, w.rest) },
+                   s!"started c=[{joinC w.evs}]\t*")
+  | ["join"] =>
+    if !d.opened then (d, "malformed\t*") else
+    if isDead then (d, "- c=[] f=[]\t*") else
+    if d.closed then (d, "nodb c=[] f=[]\t*") else
+    match d.parked with
+    | none => (d, "acks=0 c=[] f=[]\t*")
+    | some (pl, rest) =>
+      let w := walk "C" d.kill line 0 d.st rest
+      match w.dead with
+      | some k => ({ d with st := w.st, dead := some k, parked := none, queued := [] }, s!"- c=[{joinC w.evs}] f=[]\t*")
+      | none =>
+        let d1 := { d with st := w.st, acked := d.acked ++ [pl], parked := none }
+        let (wb, byF) := if d.queued.isEmpty then (({ st := w.st } : Walk), d.by_) else batchWalk d1 line w.evs.length d.queued
+        let evs := w.evs ++ wb.evs
+        let byF2 := { byF with walN := if d.st.sync then 0 else byF.walN,
+                               headOff := if wb.evs.contains "write:manifest" then byF.vOff else byF.headOff }
+        match wb.dead with
+        | some k => ({ d1 with st := wb.st, dead := some k, queued := [], by_ := byF2 }, s!"- c=[{joinC evs}] f=[]\t*")
+        | none =>
+          let wf := flushAll d.cfg d.kill line wb.st d.rewriteEvery
+          ({ d1 with st := wf.st, dead := wf.dead, queued := [], by_ := byF2,
+                     acked := d1.acked ++ d.queued.map (·.1) },
+           s!"acks={1 + d.queued.length} c=[{joinC evs}] f=[{joinC wf.evs}]\t*")
   | ["close"] =>
     if !d.opened then (d, "malformed\t*") else
     if isDead then (d, "- x=[]\t*") else
@@ -314,8 +451,8 @@ def step (d0 : DSt) (toks : List String) : DSt × String :=
       let rel := if nt > mv then s!"gt:+{nt - mv}" else s!"le:+-{mv - nt}"
       let e : ESz := { ent := ⟨probeKey, false, plen + 9⟩, est := est, plen := plen, vlen := 0 }
       let (decs, delta, by1) := decide_ d.cfg d.by_ false [e]
-      let w := walk "C" none line 0 d.st (commitSteps d.cfg d.st line decs delta)
-      let wf := flushAll d.cfg none line w.st
+      let w := walk "C" none line 0 d.st (decorate d.rewriteEvery (commitSteps d.cfg d.st line decs delta))
+      let wf := flushAll d.cfg none line w.st d.rewriteEvery
       let spec := if d.prop == "C12" then "probe=gt*" else "*"
       ({ d with st := wf.st, by_ := { by1 with walN := if d.st.sync then 0 else by1.walN } }, s!"probe={rel}\t{spec}")
     | _, _ => (d, "bad-op")
